@@ -343,6 +343,9 @@ def run_script(gen, ops, *, tail=None, open_first=True, settle=40.0, debug=False
             if not t.done():
                 t.cancel()
         await asyncio.sleep(0)
+        # (subscriber hooks that never fired must not fire on the harness's own final close)
+        w.on_connect_hooks.clear()
+        w.on_disconnect_hooks.clear()
         await _guarded(w, run, "close", w.sock.close())
         await quiesce(loop)
         return True
